@@ -187,6 +187,11 @@ def r_shift_pair(ctx: RuleCtx, col: Collector):
         mk = [k.value for k in call.keywords if k.arg == "M"]
         a0 = norm(call.args[0]) if call.args else "?"
         construct = f"{call.func.attr}({a0}, M={U(mk[0]) if mk else None}, sigma=...) vs shift '{stmt_key(shift)}'"
+        wh = [k.value for k in call.keywords if k.arg == "which"]
+        if wh and not (isinstance(wh[0], ast.Constant) and wh[0].value == "LM"):
+            col.bad(where_of(f), f.rel, line_of(call), f"{call.func.attr}: which={U(wh[0])} in shift-invert mode",
+                    f"in shift-invert mode 'which' selects among nu = 1/(lambda - sigma): only 'LM' (the default) returns the "
+                    f"eigenvalues closest to the shift on both sides; {U(wh[0])} returns those on one side of it only")
         if mk and norm(mk[0]) == m_in_shift and a0 == a_in_shift:
             col.ok(where_of(f), f.rel, line_of(call), construct, "same pencil in the shift and in the eigensolver")
         else:
